@@ -950,10 +950,8 @@ class Patron(object):
 
         self.connector.tx(request)
 
-        if method is not None:
-            self.respondent.reinit(method=self.requester.method)
-        else:
-            self.respondent.reinit()  # reset code status reason
+        # reset code status reason, method of request decides if response has body
+        self.respondent.reinit(method=self.requester.method)
 
     def redirect(self):
         """
